@@ -44,4 +44,14 @@ theorem seedFloor_eq (o : UInt64) : (floorSeedValue o).toNat = max o.toNat 1 - 1
     have : max o.toNat 1 = o.toNat := by omega
     rw [this]
 
+/-- `l1_accepted` resolves to `min(L1 head number, chain height)` in rpc/v9 and rpc/v10 alike: the model's
+`l1AcceptedNumber` (one version-parameterised definition). -/
+theorem l1Accepted_eq (l h : UInt64) :
+    (rpcV10L1Accepted l h).toNat = min l.toNat h.toNat ∧ rpcV9L1Accepted l h = rpcV10L1Accepted l h := by
+  refine ⟨?_, rfl⟩
+  simp only [rpcV10L1Accepted, Std.min_eq_if]
+  by_cases hle : l ≤ h
+  · rw [if_pos hle]; rw [UInt64.le_iff_toNat_le] at hle; rw [Nat.min_def, if_pos hle]
+  · rw [if_neg hle]; rw [UInt64.le_iff_toNat_le] at hle; rw [Nat.min_def, if_neg hle]
+
 end Juno.Tie.C08
